@@ -1,8 +1,14 @@
 /-
 C07 — permute, reshape and squeeze are exact index maps (dense, sparse, Kruskal, Tucker).
-Only property theorems and non-vacuity examples live here; proofs are in Lemmas/ShapeOps.lean.
+Only property theorems and non-vacuity examples live here; proofs are in Lemmas/ShapeOps.lean,
+Lemmas/ShapeOpsAgree.lean (Tucker, agreement of the holders, round trips) and Lemmas/ShapeOpsFull.lean
+(expanding to dense commutes with the operation).  `Spec.permute` / `Spec.reshape`
+(Spec/ShapeOps.lean) are the index formulas on the array an object denotes (`X.den`), and
+`A.Same B` says two denotations are the same array (same shape, same entry at every subscript).
 -/
 import PyttbModel.Lemmas.ShapeOps
+import PyttbModel.Lemmas.ShapeOpsAgree
+import PyttbModel.Lemmas.ShapeOpsFull
 import Mathlib.Algebra.Ring.Defs
 namespace Pyttb
 
@@ -136,6 +142,240 @@ theorem C07_permute_at_ktensor [CommSemiring α] (K : Ktensor α) (p : List Nat)
     (hp : isPermOf p K.factors.length = true) (j : List Nat) (hj : j.length = K.factors.length) :
     ∃ P, K.permute p = .ok P ∧ P.shape = gather K.shape p ∧ P.weights = K.weights ∧
       P.get j = K.get (gather j (invPerm p)) := permute_at_ktensor K p hp j hj
+
+/-- `ttensor.permute(p)` (core permuted, factor matrices reordered) denotes the permuted array:
+entry `j` of the result is entry `gather j (invPerm p)` of the operand, where a Tucker tensor
+denotes `Σ_k G[k] ∏ₙ Uₙ[iₙ, kₙ]` (`Ttensor.get`, the denotation used by C02).  Only the core has to
+be a well-formed array with one mode per factor; nothing is assumed of the factor matrices. -/
+theorem C07_permute_at_ttensor [CommSemiring α] (T : Ttensor α) (p : List Nat) (hc : T.core.WF)
+    (hlen : T.factors.length = T.core.shape.length) (hp : isPermOf p T.factors.length = true)
+    (j : List Nat) (hj : j.length = T.factors.length) :
+    ∃ P, T.permute p = .ok P ∧ P.shape = gather T.shape p ∧
+      P.core.shape = gather T.core.shape p ∧ P.core.WF ∧ P.factors = gatherD T.factors p [] ∧
+      P.get j = T.get (gather j (invPerm p)) := permute_at_ttensor T p hc hlen hp j hj
+
+/-- `ttensor.permute` rejects everything that is not a permutation of the modes. -/
+theorem C07_permute_rejects_ttensor [Zero α] (T : Ttensor α) (p : List Nat)
+    (hp : isPermOf p T.factors.length = false) : T.permute p = .error .reject :=
+  (permute_rejects_others (⟨[], [], []⟩ : Sparse α) ⟨[], []⟩ T p).2.2 hp
+
+/-- permuting a well-formed Tucker tensor (in the sense of C02: well-formed core, one factor per
+core mode, as many columns as the core mode has entries) gives a well-formed Tucker tensor. -/
+theorem C07_permute_wf_ttensor [Zero α] (T : Ttensor α) (p : List Nat) (hT : ML.TuckerWF T)
+    (hp : isPermOf p T.factors.length = true) :
+    ∃ P, T.permute p = .ok P ∧ ML.TuckerWF P := permute_wf_ttensor T p hT hp
+
+/-! ### every holder computes the one index formula -/
+
+/-- For each of the four holders, `permute` succeeds and the result denotes `Spec.permute` of
+what the operand denotes. -/
+theorem C07_permute_spec [CommSemiring α] (D : Dense α) (S : Sparse α) (K : Ktensor α) (T : Ttensor α)
+    (p : List Nat) :
+    (D.WF → isPermOf p D.shape.length = true →
+      ∃ P, D.permute p = .ok P ∧ P.WF ∧ P.den.Same (Spec.permute D.den p)) ∧
+    ((∀ r ∈ S.subs, r.length = S.shape.length) → isPermOf p S.shape.length = true →
+      ∃ P, S.permute p = .ok P ∧ P.den.Same (Spec.permute S.den p)) ∧
+    (isPermOf p K.factors.length = true →
+      ∃ P, K.permute p = .ok P ∧ P.den.Same (Spec.permute K.den p)) ∧
+    (T.core.WF → T.factors.length = T.core.shape.length → isPermOf p T.factors.length = true →
+      ∃ P, T.permute p = .ok P ∧ P.den.Same (Spec.permute T.den p)) :=
+  ⟨fun hD hp => permute_den_dense D p hD hp, fun hS hp => permute_den_sparse S p hp hS,
+    fun hp => permute_den_ktensor K p hp, fun hc hl hp => permute_den_ttensor T p hc hl hp⟩
+
+/-- Dense, sparse, Kruskal and Tucker holders of ONE array `X`: for every permutation `p` of its
+modes the four `permute`s succeed and the four results denote the same array, `Spec.permute X p`. -/
+theorem C07_permute_agree [CommSemiring α] (X : Den α) (D : Dense α) (S : Sparse α) (K : Ktensor α)
+    (T : Ttensor α) (p : List Nat) (hD : D.WF) (hS : ∀ r ∈ S.subs, r.length = S.shape.length)
+    (hTc : T.core.WF) (hTl : T.factors.length = T.core.shape.length)
+    (hDX : D.den.Same X) (hSX : S.den.Same X) (hKX : K.den.Same X) (hTX : T.den.Same X)
+    (hp : isPermOf p X.shape.length = true) :
+    ∃ PD PS PK PT, D.permute p = .ok PD ∧ S.permute p = .ok PS ∧ K.permute p = .ok PK ∧
+      T.permute p = .ok PT ∧ PD.den.Same (Spec.permute X p) ∧ PS.den.Same (Spec.permute X p) ∧
+      PK.den.Same (Spec.permute X p) ∧ PT.den.Same (Spec.permute X p) :=
+  permute_agree X D S K T p hD hS hTc hTl hDX hSX hKX hTX hp
+
+/-- Dense and sparse holders of one array `X`: `reshape(s')` succeeds on both and both results
+denote `Spec.reshape X s'`. -/
+theorem C07_reshape_agree_dense_sparse [Add α] [Zero α] [BEq α] (X : Den α) (D : Dense α)
+    (S : Sparse α) (s' : List Nat) (hD : D.WF) (hS : S.WF) (hDX : D.den.Same X) (hSX : S.den.Same X)
+    (hn : numel s' = numel X.shape) :
+    ∃ PD PS, D.reshape s' = .ok PD ∧ S.reshape s' none = .ok PS ∧
+      PD.den.Same (Spec.reshape X s') ∧ PS.den.Same (Spec.reshape X s') :=
+  reshape_agree_dense_sparse X D S s' hD hS hDX hSX hn
+
+/-- Dense and sparse holders of one array (positive extents): `squeeze` returns a scalar for both
+or an object for both; the scalars are equal and the objects denote the same array. -/
+theorem C07_squeeze_agree_dense_sparse [AddMonoid α] [BEq α] (D : Dense α) (S : Sparse α) (hD : D.WF)
+    (hS : S.WF) (hpos : ∀ e ∈ D.shape, 1 ≤ e) (hSD : S.den.Same D.den) :
+    match D.squeeze, S.squeeze with
+    | .scalar v, .ok (.scalar w) => v = w
+    | .obj PD, .ok (.obj PS) => PS.den.Same PD.den
+    | _, _ => False := squeeze_agree_dense_sparse D S hD hS hpos hSD
+
+/-- Expanding to dense commutes with `permute`, sparse holder: `S.full().permute(p)` is exactly
+`S.permute(p).full()`. -/
+theorem C07_permute_full_sparse [AddMonoid α] [DecidableEq α] (S : Sparse α) (p : List Nat) (hS : S.WF)
+    (hp : isPermOf p S.shape.length = true) :
+    ∃ P, S.permute p = .ok P ∧ P.WF ∧ S.full.permute p = .ok P.full := permute_full_sparse S p hS hp
+
+/-- … Kruskal holder (positive extents: the model's list-of-rows matrices carry no column count
+when there is no row): `K.full().permute(p)` is exactly `K.permute(p).full()`. -/
+theorem C07_permute_full_ktensor [CommSemiring α] (K : Ktensor α) (p : List Nat) (hK : K.WF)
+    (hN : 1 ≤ K.factors.length) (hpos : ∀ e ∈ K.shape, 1 ≤ e)
+    (hp : isPermOf p K.factors.length = true) :
+    ∃ P D D', K.permute p = .ok P ∧ K.full = .ok D ∧ P.full = .ok D' ∧ D.permute p = .ok D' :=
+  permute_full_ktensor K p hK hN hpos hp
+
+/-- … Tucker holder (`full` is the C02 model `core.ttm(factors)`): `T.full().permute(p)` is exactly
+`T.permute(p).full()`. -/
+theorem C07_permute_full_ttensor [CommSemiring α] (T : Ttensor α) (p : List Nat) (hT : ML.TuckerWF T)
+    (hN : 1 ≤ T.factors.length) (hp : isPermOf p T.factors.length = true) :
+    ∃ P D D', T.permute p = .ok P ∧ T.full = .ok D ∧ P.full = .ok D' ∧ D.permute p = .ok D' :=
+  permute_full_ttensor T p hT hN hp
+
+/-- Expanding to dense commutes with `reshape`: `S.full().reshape(s')` is exactly
+`S.reshape(s').full()`. -/
+theorem C07_reshape_full_sparse [AddMonoid α] [DecidableEq α] (S : Sparse α) (s' : List Nat) (hS : S.WF)
+    (hn : numel s' = numel S.shape) :
+    ∃ P, S.reshape s' none = .ok P ∧ P.WF ∧ S.full.reshape s' = .ok P.full :=
+  reshape_full_sparse S s' hS hn
+
+/-! ### round trips, every holder -/
+
+/-- sparse: permuting by `p` and then by the inverse order returns the STORED tensor (same rows in
+the same order, same values), hence the same array. -/
+theorem C07_permute_inverse_sparse (S : Sparse α) (p : List Nat)
+    (hp : isPermOf p S.shape.length = true) (hS : ∀ r ∈ S.subs, r.length = S.shape.length) :
+    ∃ P, S.permute p = .ok P ∧ P.permute (invPerm p) = .ok S := permute_inverse_sparse S p hp hS
+
+/-- sparse: the identity order changes nothing. -/
+theorem C07_permute_id_sparse (S : Sparse α) (hS : ∀ r ∈ S.subs, r.length = S.shape.length) :
+    S.permute (List.range S.shape.length) = .ok S := permute_id_sparse S hS
+
+/-- Kruskal: permuting by `p` and then by the inverse order returns the very same weights and
+factor matrices. -/
+theorem C07_permute_inverse_ktensor (K : Ktensor α) (p : List Nat)
+    (hp : isPermOf p K.factors.length = true) :
+    ∃ P, K.permute p = .ok P ∧ P.permute (invPerm p) = .ok K := permute_inverse_ktensor K p hp
+
+/-- Tucker: permuting by `p` and then by the inverse order returns the very same core and factor
+matrices. -/
+theorem C07_permute_inverse_ttensor [Zero α] (T : Ttensor α) (p : List Nat) (hc : T.core.WF)
+    (hlen : T.factors.length = T.core.shape.length) (hp : isPermOf p T.factors.length = true) :
+    ∃ P, T.permute p = .ok P ∧ P.permute (invPerm p) = .ok T := permute_inverse_ttensor T p hc hlen hp
+
+/-- sparse reshape keeps well-formedness (in bounds, distinct subscripts, no stored zero), for all
+modes and for a listed subset of modes. -/
+theorem C07_reshape_wf_sparse [Zero α] [BEq α] (S : Sparse α) (s' om : List Nat) (hS : S.WF) :
+    (numel s' = numel S.shape → ∃ P, S.reshape s' none = .ok P ∧ P.WF) ∧
+    (om.Nodup ∧ (∀ m ∈ om, m < S.shape.length) → numel s' = numel (gather S.shape om) →
+      ∃ P, S.reshape s' (some om) = .ok P ∧ P.WF) :=
+  ⟨fun hn => reshape_all_wf_sparse S s' hS hn, fun hom hn => reshape_partial_wf_sparse S s' om hS hom hn⟩
+
+/-- sparse: reshaping all modes and reshaping back returns the STORED tensor. -/
+theorem C07_reshape_back_sparse [Zero α] [BEq α] (S : Sparse α) (s' : List Nat) (hS : S.WF)
+    (hn : numel s' = numel S.shape) :
+    ∃ P, S.reshape s' none = .ok P ∧ P.shape = s' ∧ P.reshape S.shape none = .ok S :=
+  reshape_back_sparse S s' hS hn
+
+/-- sparse partial reshape and back: reshape the modes `om` to `s'` (they become the trailing
+modes), then reshape those trailing modes back to their old extents.  The result is exactly
+`S.permute(kept modes ++ om)` as stored — the tensor with the reshaped modes moved last — and it is
+`S` itself when `om` are the trailing modes in increasing order. -/
+theorem C07_sp_reshape_partial_back [Zero α] [BEq α] (S : Sparse α) (s' om : List Nat) (hS : S.WF)
+    (hom : om.Nodup ∧ ∀ m ∈ om, m < S.shape.length) (hn : numel s' = numel (gather S.shape om)) :
+    ∃ P Q, S.reshape s' (some om) = .ok P ∧
+      P.reshape (gather S.shape om)
+        (some (List.range' (complDims S.shape.length om).length s'.length)) = .ok Q ∧
+      S.permute (complDims S.shape.length om ++ om) = .ok Q ∧
+      (complDims S.shape.length om ++ om = List.range S.shape.length → Q = S) :=
+  sp_reshape_partial_back S s' om hS hom hn
+
+/-! ### sparse tensors with nothing stored (the code returns early for these) -/
+
+/-- `permute`, `reshape` (all modes / listed modes) and `squeeze` of a sparse tensor with no stored
+entry: the empty tensor of the new shape; `squeeze` of an all-singleton empty tensor is the scalar 0
+(repaired code). -/
+theorem C07_empty_sparse [Zero α] (s s' p om : List Nat) :
+    (isPermOf p s.length = true → (⟨s, [], []⟩ : Sparse α).permute p = .ok ⟨gather s p, [], []⟩) ∧
+    (numel s' = numel s → (⟨s, [], []⟩ : Sparse α).reshape s' none = .ok ⟨s', [], []⟩) ∧
+    (om.Nodup ∧ (∀ m ∈ om, m < s.length) → numel s' = numel (gather s om) →
+      (⟨s, [], []⟩ : Sparse α).reshape s' (some om) =
+        .ok ⟨gather s (complDims s.length om) ++ s', [], []⟩) ∧
+    (⟨s, [], []⟩ : Sparse α).squeeze =
+      (if s.all (· > 1) then .ok (.obj ⟨s, [], []⟩)
+       else if s.filter (· > 1) = [] then .ok (.scalar 0)
+       else .ok (.obj ⟨s.filter (· > 1), [], []⟩)) :=
+  ⟨fun hp => permute_empty_sparse s p hp, fun hn => reshape_empty_sparse s s' hn,
+    fun hom hn => reshape_partial_empty_sparse s s' om hom hn, squeeze_empty_sparse s⟩
+
+/-! ### edge shapes, as instances of the general theorems -/
+
+/-- 1-way dense tensor: the only order is `[0]`, and it returns the tensor. -/
+example [Zero α] (T : Dense α) (hT : T.WF) (h1 : T.shape.length = 1) : T.permute [0] = .ok T := by
+  have := C07_permute_id_dense T hT
+  rwa [h1] at this
+
+/-- 1-way sparse tensor: the only order `[0]` returns the stored tensor. -/
+example (S : Sparse α) (h1 : S.shape.length = 1) (hS : ∀ r ∈ S.subs, r.length = 1) :
+    S.permute [0] = .ok S := by
+  have := C07_permute_id_sparse S (by rw [h1]; exact hS)
+  rwa [h1] at this
+
+/-- a sparse tensor with nothing stored needs no special case in the general theorem: every entry of
+the permuted tensor is zero. -/
+example [Add α] [Zero α] (s p j : List Nat) (hp : isPermOf p s.length = true) (hj : j.length = s.length) :
+    ∃ P, (⟨s, [], []⟩ : Sparse α).permute p = .ok P ∧ P.get j = 0 := by
+  obtain ⟨P, h, _, _, _, hg⟩ := C07_permute_at_sparse (⟨s, [], []⟩ : Sparse α) p hp (by simp) j hj
+  exact ⟨P, h, by rw [hg]; rfl⟩
+
+/-- 1-way Kruskal tensor: permute by `[0]` and back is the identity, and the result denotes the
+same array. -/
+example [CommSemiring α] (w : List α) (A : Mat α) (j : List Nat) (hj : j.length = 1) :
+    ∃ P, (⟨w, [A]⟩ : Ktensor α).permute [0] = .ok P ∧ P.get j = (⟨w, [A]⟩ : Ktensor α).get (gather j [0]) := by
+  obtain ⟨P, h1, _, _, h4⟩ := C07_permute_at_ktensor (⟨w, [A]⟩ : Ktensor α) [0] rfl j hj
+  exact ⟨P, h1, h4⟩
+
+/-- 1-way Tucker tensor (core of shape `[c]`, one factor). -/
+example [CommSemiring α] (c : Nat) (g : List α) (U : Mat α) (hg : g.length = c) :
+    ∃ P, (⟨⟨[c], g⟩, [U]⟩ : Ttensor α).permute [0] = .ok P ∧ P.permute (invPerm [0]) = .ok ⟨⟨[c], g⟩, [U]⟩ :=
+  C07_permute_inverse_ttensor _ [0] (by simp [Dense.WF, hg]) rfl rfl
+
+/-- all-singleton dense tensor with at least one mode: `squeeze` is the scalar entry. -/
+example [Zero α] (T : Dense α) (hT : T.WF) (h : ∀ e ∈ T.shape, e = 1) (hne : T.shape ≠ []) :
+    T.squeeze = .scalar (T.get (T.shape.map fun _ => 0)) := by
+  have h0 := C07_squeeze_at_dense T hT (fun e he => by rw [h e he])
+  cases hq : T.squeeze with
+  | scalar v => rw [hq] at h0; rw [h0.2]
+  | obj P =>
+    rw [hq] at h0
+    exfalso
+    apply h0.2.2.1 hne
+    rw [h0.1, List.filter_eq_nil_iff]
+    intro e he
+    simp [h e he]
+
+/-- all-singleton shapes: every order is accepted and a reshape to any all-singleton shape keeps the
+single entry. -/
+example : (⟨[1, 1, 1], [7]⟩ : Dense Int).permute [2, 0, 1] = .ok ⟨[1, 1, 1], [7]⟩ ∧
+    (⟨[1, 1, 1], [7]⟩ : Dense Int).reshape [1] = .ok ⟨[1], [7]⟩ ∧
+    (⟨[1, 1, 1], [7]⟩ : Dense Int).squeeze = .scalar 7 ∧
+    (⟨[1, 1], [[0, 0]], [7]⟩ : Sparse Int).squeeze = .ok (.scalar 7) ∧
+    (⟨[1, 1], [], []⟩ : Sparse Int).squeeze = .ok (.scalar 0) := by decide
+
+/-- a 3-cycle on a sparse tensor, its inverse, and a partial reshape of the two trailing modes. -/
+example : (⟨[2, 3, 4], [[1, 2, 3], [0, 1, 2]], [5, 6]⟩ : Sparse Int).permute [2, 0, 1] =
+      .ok ⟨[4, 2, 3], [[3, 1, 2], [2, 0, 1]], [5, 6]⟩ ∧
+    (⟨[4, 2, 3], [[3, 1, 2], [2, 0, 1]], [5, 6]⟩ : Sparse Int).permute (invPerm [2, 0, 1]) =
+      .ok ⟨[2, 3, 4], [[1, 2, 3], [0, 1, 2]], [5, 6]⟩ ∧
+    (⟨[2, 3, 4], [[1, 2, 3], [0, 1, 2]], [5, 6]⟩ : Sparse Int).reshape [12] (some [1, 2]) =
+      .ok ⟨[2, 12], [[1, 11], [0, 7]], [5, 6]⟩ ∧
+    (⟨[2, 12], [[1, 11], [0, 7]], [5, 6]⟩ : Sparse Int).reshape [3, 4] (some [1]) =
+      .ok ⟨[2, 3, 4], [[1, 2, 3], [0, 1, 2]], [5, 6]⟩ := by decide
+
+/-- a Tucker tensor: the core is transposed and the factors reordered. -/
+example : (⟨⟨[1, 2], [3, 4]⟩, [[[1], [2]], [[1, 0], [0, 1], [1, 1]]]⟩ : Ttensor Int).permute [1, 0] =
+    .ok ⟨⟨[2, 1], [3, 4]⟩, [[[1, 0], [0, 1], [1, 1]], [[1], [2]]]⟩ := by decide
 
 example : isPermOf [2, 0, 1] 3 = true ∧ invPerm [2, 0, 1] = [1, 2, 0] := by decide
 example : (⟨[2, 3], [1, 2, 3, 4, 5, 6]⟩ : Dense Int).permute [1, 0] = .ok ⟨[3, 2], [1, 3, 5, 2, 4, 6]⟩ := rfl
